@@ -47,6 +47,16 @@ type ABadge struct {
 	HolderID   *uint
 	HolderType string
 }
+type ASeal struct { // has-one held BY VALUE (assign-back path of saveAssociation)
+	ID      uint `gorm:"primaryKey"`
+	Name    string
+	AUserID *uint
+}
+type APart struct { // has-many held as []*APart
+	ID      uint `gorm:"primaryKey"`
+	Name    string
+	AUserID *uint
+}
 type AUser struct {
 	ID      uint `gorm:"primaryKey"`
 	Name    string
@@ -58,9 +68,11 @@ type AUser struct {
 	Notes   []ANote  `gorm:"polymorphic:Holder"`
 	Badge   *ABadge  `gorm:"polymorphic:Holder"`
 	Friends []*AUser `gorm:"many2many:a_friends"`
+	Seal    ASeal
+	Parts   []*APart
 }
 
-var c12Models = []interface{}{&AHome{}, &ACard{}, &AItem{}, &ATag{}, &ANote{}, &ABadge{}, &AUser{}}
+var c12Models = []interface{}{&AHome{}, &ACard{}, &AItem{}, &ATag{}, &ANote{}, &ABadge{}, &ASeal{}, &APart{}, &AUser{}}
 
 // relation kinds.  Class = the shape of the link store: "bt" fk column on the owner row, "fk" fk column on
 // the target row (has-one / has-many / polymorphic), "m2m" join rows.
@@ -84,6 +96,8 @@ var c12Kinds = []c12Kind{
 	{Name: "many2many", Field: "Tags", Class: "m2m", Table: "a_tags", Join: "a_user_tags", JOwner: "a_user_id", JTgt: "a_tag_id"},
 	{Name: "poly_many", Field: "Notes", Class: "fk", Table: "a_notes", FK: "holder_id", Poly: true},
 	{Name: "poly_one", Field: "Badge", Class: "fk", Card1: true, Table: "a_badges", FK: "holder_id", Poly: true},
+	{Name: "has_one_val", Field: "Seal", Class: "fk", Card1: true, Table: "a_seals", FK: "a_user_id"},
+	{Name: "has_many_ptr", Field: "Parts", Class: "fk", Table: "a_parts", FK: "a_user_id"},
 	{Name: "self_m2m", Field: "Friends", Class: "m2m", Table: "a_users", Join: "a_friends", JOwner: "a_user_id", JTgt: "friend_id"},
 }
 
@@ -328,8 +342,8 @@ func c12Setup(db *gorm.DB, k *c12Kind, s c12Seq) {
 	}
 	if k.Poly {
 		// decoys: rows of ANOTHER holder type carrying the operated owners' keys; no operation may touch them
-		ex("INSERT INTO "+k.Table+" (id, name, "+k.FK+", holder_type) VALUES (1, 'decoy1', 1, 'other')")
-		ex("INSERT INTO "+k.Table+" (id, name, "+k.FK+", holder_type) VALUES (2, 'decoy2', 2, 'other')")
+		ex("INSERT INTO " + k.Table + " (id, name, " + k.FK + ", holder_type) VALUES (1, 'decoy1', 1, 'other')")
+		ex("INSERT INTO " + k.Table + " (id, name, " + k.FK + ", holder_type) VALUES (2, 'decoy2', 2, 'other')")
 	}
 }
 
